@@ -776,6 +776,10 @@ func (g *Gen) scanBurst() []*Step {
 			st = append(st, &Step{Ops: []*Op{ZAdd(key, VStr(n), float64(i%3))}})
 		}
 	}
+	if g.chance(0.3) {
+		// the collection carries a time-to-live that is still far away
+		st = append(st, &Step{Ops: []*Op{KExpire(key, hour*int64(1+g.pick(3)))}})
+	}
 	st = append(st, CollIteration(fam, key, c.pat, []int{0, 1, 3, 10, 11}[g.pick(5)]))
 	return st
 }
@@ -901,6 +905,9 @@ func (g *Gen) systematicBurst() []*Step {
 	if fam("key") || g.Prof.Binary {
 		kinds = append(kinds, "like-names")
 	}
+	if g.Prof.Scan || g.Prof.Glob {
+		kinds = append(kinds, "case-prefix")
+	}
 	for _, f := range []string{"set", "hash", "zset"} {
 		if fam(f) && !g.Prof.Scan {
 			kinds = append(kinds, "big-"+f)
@@ -1013,6 +1020,19 @@ func (g *Gen) systematicBurst() []*Step {
 		default:
 			return steps(KDelete(k), SSet(k, VNil()), SGet(k), HSet(k2, "", VNil()), HGet(k2, ""), HSetNX(k2, "", VStr("x")), HDelete(k2, ""), SSet(k, VStr("")), SIncr(k, 1))
 		}
+	case kind == "case-prefix":
+		// key names that differ from a prefix only in letter case, or only at a position where the
+		// prefix has "_" or "%": a prefix pattern selects by bytes
+		names := []string{"ab", "Ab", "ABc", "abc", "aBd", "a_c", "axc", "a%c", "AB"}
+		ops := []*Op{KDelete(names...)}
+		for _, n := range names {
+			ops = append(ops, SSet(n, VStr("v")))
+		}
+		st := steps(ops...)
+		pat := []string{"ab*", "A*", "a_*", "a%*", "AB*", "a*"}[g.pick(6)]
+		st = append(st, steps(KKeys(pat))...)
+		st = append(st, KeyIteration(pat, 0, []int{0, 1, 2, 5}[g.pick(4)]))
+		return append(st, steps(KDelete(names...))...)
 	case kind == "default-page":
 		// more elements than the default page holds (10), iterated with the default page size
 		fm := []byte{'E', 'H', 'Z'}[g.pick(3)]
@@ -1028,6 +1048,9 @@ func (g *Gen) systematicBurst() []*Step {
 			default:
 				st = append(st, &Step{Ops: []*Op{ZAdd(k, VStr(name), float64(i%4))}})
 			}
+		}
+		if g.chance(0.4) {
+			st = append(st, &Step{Ops: []*Op{KExpire(k, hour*int64(1+g.pick(3)))}})
 		}
 		return append(st, CollIteration(fm, k, []string{"*", "m*", "m1*"}[g.pick(3)], 0))
 	default:
